@@ -53,6 +53,8 @@ pub struct Family {
 }
 
 pub struct LikeWorld {
+    /// sub-engine label ("like", or "like-long" for the thorough long-haystack pass)
+    pub sub: &'static str,
     pub alpha: Alpha,
     pub pats: Vec<String>,
     pub fams: Vec<Family>,
@@ -233,14 +235,14 @@ pub fn run_pattern(w: &LikeWorld, pi: usize, st: &mut Stats, verbose: bool) {
             }
             // distinct (pattern, haystack) pairs; non-trivial = neither side empty
             let nt = if pstr.is_empty() { 0 } else { fam.table.iter().filter(|h| !h.is_empty()).count() as u64 };
-            st.add("like", 0, nt);
+            st.add(w.sub, 0, nt);
             st.count("like_distinct_pattern_haystack_pairs", n as u64);
             let mut ve = VariantExp { pstr, alt, alt_toks, exp, alt_exp: [vec![2u8; n], vec![2u8; n]] };
             run_variant(w, pi, fi, fam, xf, &mut ve, st, verbose);
         }
     }
     if pi == np / 2 || pi == np - 1 {
-        st.sample("like", || json!({"sub": "like", "pattern_index": pi, "pattern": p, "alt_pattern": w.pats[alt_i]}));
+        st.sample(w.sub, || json!({"sub": w.sub, "pattern_index": pi, "pattern": p, "alt_pattern": w.pats[alt_i]}));
     }
 }
 
@@ -306,7 +308,7 @@ fn run_variant(w: &LikeWorld, pi: usize, fi: usize, fam: &Family, xf: Xform, ve:
                         }
                     }
                 });
-                st.add("like", n as u64, 0);
+                st.add(w.sub, n as u64, 0);
                 if verbose {
                     println!(
                         "  family={} variant={} column={} op={} form={} pattern={:?}: {}",
@@ -368,7 +370,7 @@ fn run_variant(w: &LikeWorld, pi: usize, fi: usize, fam: &Family, xf: Xform, ve:
                             fam.name,
                             xf.name()
                         ),
-                        || json!({"sub": "like", "pattern_index": pi, "pattern": ve.pstr, "family": fam.name, "variant": xf.name(), "column": col.name, "op": OPS[op], "form": formn, "row": m.row, "haystack": hay, "row_pattern": row_pat, "got": m.got, "want": m.want}),
+                        || json!({"sub": w.sub, "pattern_index": pi, "pattern": ve.pstr, "family": fam.name, "variant": xf.name(), "column": col.name, "op": OPS[op], "form": formn, "row": m.row, "haystack": hay, "row_pattern": row_pat, "got": m.got, "want": m.want}),
                     );
                 }
             }
